@@ -162,13 +162,6 @@ func expectedACMA(c Cfg) []string {
 	return []string{strconv.Itoa(c.MaxAge)}
 }
 
-func firstVal(r Req, key string) (string, bool) {
-	vs, ok := r.Get(key)
-	if !ok || len(vs) == 0 {
-		return "", false
-	}
-	return vs[0].String(), true
-}
 
 func isPreflight(r Req) bool {
 	_, o := firstVal(r, hOrigin)
